@@ -331,10 +331,16 @@ class Contract:
             ent = memo[key] = (raises, res)
             if self.ensures is not None:
                 # facts about the result hold whenever the call returns
-                outs = list(call_spec(ex, st, ex.wrap(self.ensures), full + [res], {}, node))
+                st.guards.append(z3.BoolVal(True))     # value context: conditionals merge, nothing forks
+                try:
+                    outs = list(call_spec(ex, st, ex.wrap(self.ensures), full + [res], {}, node))
+                finally:
+                    st.guards.pop()
                 if len(outs) != 1 or isinstance(outs[0][0], Raised) or outs[0][1] is not st:
                     raise Unsupported(f"ensures of {self.qual} forks")
-                st.ctx.add(z3.Implies(z3.Not(raises), ex.truth(st, outs[0][0])))
+                ov = outs[0][0]
+                et = z3.And([ex.truth(st, x) for x in flatten_clauses(ov)]) if isinstance(ov, VTuple) else ex.truth(st, ov)
+                st.ctx.add(z3.Implies(z3.Not(raises), et))
             if self.on_apply is not None:
                 self.on_apply(ex, st, self, full, raises, res)
         raises, res = ent
@@ -714,6 +720,8 @@ def _eval_relation(ex, st, src, cenv, senv, spec_ms):
 
 def verify_contract(contract, registry, combo_filter=None, timeout_ms=10000, rounds=3, seg_filter=None, shard=None):
     """Generate and discharge every obligation of one function. Returns a result dict."""
+    smt.SLOW[0] = 4.5 * timeout_ms / 1000.0          # 45 s quick, 270 s thorough, per task
+    smt.HARD_HITS = 0
     if isinstance(contract, Lemma):
         return verify_lemma(contract, registry, combo_filter, timeout_ms, rounds)
     t0 = time.time()
@@ -893,6 +901,11 @@ def verify_contract(contract, registry, combo_filter=None, timeout_ms=10000, rou
                                       ex.transparent = saved_tr
                               if contract.ensures is not None:
                                   for ev, s4 in call_spec(ex, s3, ex.wrap(contract.ensures), sargs + [sval], {}):
+                                      if isinstance(ev, VTuple):
+                                          # a tuple of clauses: one named obligation per clause
+                                          for ci, cv in enumerate(flatten_clauses(ev)):
+                                              ex.oblige(s4, f"ensures:clause{ci}[{nm}]", "ensures", ex.truth(s4, cv), None, {"code": describe(val)})
+                                          continue
                                       eg = z3.BoolVal(False) if isinstance(ev, Raised) else ex.truth(s4, ev)
                                       ex.oblige(s4, f"ensures:spec-result[{nm}]", "ensures", eg, None, {})
                           elif craise and sraise:
@@ -925,6 +938,8 @@ def verify_contract(contract, registry, combo_filter=None, timeout_ms=10000, rou
             # obligations left open by the incremental solver: standalone prover
             for ob in ex.obligations:
                 if ob.result is None:
+                    if os.environ.get("PYVC_TRACE"):
+                        print("FALLBACK", ob.name, ob.where, str(ob.info)[:600], flush=True)
                     try:
                         ob.result = smt.prove(ob.snapshot, ob.goal, timeout_ms=timeout_ms, rounds=rounds)
                     except z3.Z3Exception as e:
@@ -940,6 +955,16 @@ def verify_contract(contract, registry, combo_filter=None, timeout_ms=10000, rou
     res["wall_s"] = round(time.time() - t0, 2)
     res["solver_time_s"] = round(res["solver_time_s"], 2)
     return res
+
+
+def flatten_clauses(v):
+    """clauses of an `ensures` written as a (nested) tuple of booleans"""
+    if isinstance(v, VTuple):
+        out = []
+        for x in v.items:
+            out.extend(flatten_clauses(x))
+        return out
+    return [v]
 
 
 def concretise(model, contract, combo):
